@@ -20,7 +20,7 @@ func c06Gen(ctx *vh.Ctx, i int) *gcase5.Case {
 	o := gcase5.GenOpts{Mode: "mixed", MaxNodes: 6, Depth: 2, Cycles: true, FailPct: 3, BranchPct: 35,
 		StatePct: 50, HandlerPct: 20, RerunPct: 10, IntPct: 25, FirstBias: i%2 == 0}
 	if ctx.Thorough() {
-		o.MaxNodes = 9
+		o.MaxNodes = 7 // (the shared engine model's skip-propagation fuel covers chains of up to 6 skipped nodes)
 	}
 	switch i % 4 {
 	case 1:
